@@ -605,6 +605,76 @@ theorem run_same_inputs (hwf : WF wb) (hl : Local wb f) (eqv : α → α → Boo
       refine ih _ _ es.inv et.inv ?_ (fun k hk => es.mono k (bs k hk)) (fun k hk => et.mono k (bt k hk))
       rw [es.inp, et.inp, e]
 
+/-- "same inputs, whole cell map built, invariant" — what two models that answer alike have in common -/
+structure Alike (wb : Workbook) (f : Nat → (Nat → α) → α) (s t : State α) : Prop where
+  invS : Inv wb f s
+  invT : Inv wb f t
+  inp : s.inp = t.inp
+  builtS : ∀ k, k < wb.n → s.built k = true
+  builtT : ∀ k, k < wb.n → t.built k = true
+
+theorem Alike.stepSet (hwf : WF wb) (hl : Local wb f) (eqv : α → α → Bool) {s t : State α} (h : Alike wb f s t)
+    (i : Nat) (v : α) : Alike wb f (setValue wb eqv i v s) (setValue wb eqv i v t) := by
+  refine ⟨setValue_inv hwf hl eqv h.invS i v, setValue_inv hwf hl eqv h.invT i v, ?_, ?_, ?_⟩
+  · rw [setValue_inp_any hwf hl eqv h.invS, setValue_inp_any hwf hl eqv h.invT, h.inp]
+    by_cases hi : i < wb.n
+    · simp [hi, h.builtS i hi, h.builtT i hi]
+    · simp [hi]
+  · rw [setValue_built hwf hl eqv h.invS]; exact h.builtS
+  · rw [setValue_built hwf hl eqv h.invT]; exact h.builtT
+
+theorem Alike.stepEval (hwf : WF wb) (hl : Local wb f) {s t : State α} (h : Alike wb f s t) (a : Nat) :
+    Alike wb f (evaluate wb f a s).2 (evaluate wb f a t).2 := by
+  have es := evaluate_spec hwf hl h.invS a
+  have et := evaluate_spec hwf hl h.invT a
+  exact ⟨es.inv, et.inv, by rw [es.inp, et.inp, h.inp], fun k hk => es.mono k (h.builtS k hk),
+    fun k hk => et.mono k (h.builtT k hk)⟩
+
+theorem Alike.evalVal (hwf : WF wb) (hl : Local wb f) {s t : State α} (h : Alike wb f s t) (a : Nat)
+    (ha : a < wb.n) : (evaluate wb f a s).1 = (evaluate wb f a t).1 := by
+  rw [(evaluate_spec hwf hl h.invS a).val ha, (evaluate_spec hwf hl h.invT a).val ha, h.inp]
+
+theorem Alike.stepSetL (hwf : WF wb) (hl : Local wb f) (eqv : α → α → Bool) (l : List (Nat × α)) :
+    ∀ {s t : State α}, Alike wb f s t → Alike wb f (setMany wb eqv l s) (setMany wb eqv l t) := by
+  induction l with
+  | nil => intro s t h; exact h
+  | cons p r ih =>
+    intro s t h
+    obtain ⟨i, v⟩ := p
+    unfold setMany
+    by_cases hi : i < wb.n
+    · by_cases hk : wb.kind i = .input
+      · simp only [hi, hk, h.builtS i hi, h.builtT i hi, and_self, if_true]
+        exact ih (h.stepSet hwf hl eqv i v)
+      · simp only [hk, false_and, and_false, if_false]; exact h
+    · simp only [hi, false_and, if_false]; exact h
+
+theorem Alike.stepEvalL (hwf : WF wb) (hl : Local wb f) (l : List Nat) :
+    ∀ {s t : State α}, Alike wb f s t → Alike wb f (evalMany wb f l s).2 (evalMany wb f l t).2 := by
+  induction l with
+  | nil => intro s t h; exact h
+  | cons a r ih => intro s t h; exact ih (h.stepEval hwf hl a)
+
+theorem Alike.evalLVal (hwf : WF wb) (hl : Local wb f) (l : List Nat) (hl' : ∀ a, a ∈ l → a < wb.n)
+    {s t : State α} (h : Alike wb f s t) : (evalMany wb f l s).1 = (evalMany wb f l t).1 := by
+  rw [(evalMany_spec hwf hl l h.invS hl').1, (evalMany_spec hwf hl l h.invT hl').1, h.inp]
+
+theorem Alike.runs (hwf : WF wb) (hl : Local wb f) (eqv : α → α → Bool) (h : List (OpX α)) :
+    ∀ {s t : State α}, Alike wb f s t → Alike wb f (runX wb f eqv s h) (runX wb f eqv t h) := by
+  induction h with
+  | nil => intro s t a; exact a
+  | cons o h ih =>
+    intro s t a
+    simp only [runX, foldl_cons]
+    apply ih
+    cases o with
+    | op o =>
+      cases o with
+      | set i v => exact a.stepSet hwf hl eqv i v
+      | eval x => exact a.stepEval hwf hl x
+    | setMany l => exact a.stepSetL hwf hl eqv l
+    | evalMany l => exact a.stepEvalL hwf hl l
+
 end Histories
 
 end Pycel.Persist
